@@ -7,7 +7,7 @@ from ..core import Fail
 PID = "C07"
 RULE = ("pools of shapes and closed curves: for each base shape its representations (rotated start vertex, 1-2 inserted "
         "collinear vertices (also at different places with equal segment counts), int/Fraction/float re-encodings, permuted holes/components, split-and-cleaned, copies) and "
-        "near misses (one vertex moved by 1e-3, same area elsewhere, reversed orientation, other kind); X == Y, Y == X, "
+        "near misses (one vertex moved by 1e-3, same area elsewhere, holes / components of areas (p,q) vs (p-1,q+1), reversed orientation, other kind); X == Y, Y == X, "
         "X != Y on all pairs of a pool, transitivity on triples; the same objects compared again after move / scale of one of them; mixed-degree curves (circle-vs-polygon results) must "
         "return a bool; oracle = exact region equality (slab samples + orientation); non-trivial = both operands are "
         "neither Empty nor Whole; distinct = SHA-1")
@@ -89,6 +89,24 @@ def cases(ctx):
         # other kind
         t = G.any_shape(rng, R=8, kinds=("S", "C", "D"))
         yield {"x": s, "xn": "frac", "xl": "base", "y": t, "yn": "frac", "yl": "other", "same": False}
+    # different regions with the same kind, the same number of curves and the same total area: holes (or components)
+    # of areas (p, q) against (p - 1, q + 1)
+    def rect(x, y, w, h, hole):
+        vs = [(F(x), F(y)), (F(x + w), F(y)), (F(x + w), F(y + h)), (F(x), F(y + h))]
+        return G.verts_to_jordan(G.cw(vs) if hole else G.ccw(vs))
+    for i in range(ctx.n(6, 60)):
+        pa, qa = rng.randint(2, 4), rng.randint(2, 5)
+        outer = rect(0, 0, 20, 20, False)
+        x1, x2 = rng.randint(1, 6), rng.randint(10, 14)
+        y1, y2 = rng.randint(1, 12), rng.randint(1, 12)
+        if i % 2 == 0:
+            X = ("C", [outer, rect(x1, y1, 1, pa, True), rect(x2, y2, 1, qa, True)])
+            Y = ("C", [outer, rect(x1, y1, 1, pa - 1, True), rect(x2, y2, 1, qa + 1, True)])
+        else:
+            X = ("D", [("S", rect(x1, y1, 1, pa, False)), ("S", rect(x2, y2, 1, qa, False))])
+            Y = ("D", [("S", rect(x1, y1, 1, pa - 1, False)), ("S", rect(x2, y2, 1, qa + 1, False))])
+        yield {"x": X, "xn": "frac", "xl": "areas(p,q)", "y": Y, "yn": "frac", "yl": "areas(p-1,q+1)", "same": False}
+        yield {"x": Y, "xn": "frac", "xl": "areas(p-1,q+1)", "y": X, "yn": "frac", "yl": "areas(p,q)", "same": False}
     for sing in (("E",), ("W",)):
         yield {"x": sing, "xn": "frac", "xl": "sing", "y": sing, "yn": "frac", "yl": "sing", "same": True}
     yield {"x": ("E",), "xn": "frac", "xl": "sing", "y": ("W",), "yn": "frac", "yl": "sing", "same": False}
